@@ -156,6 +156,11 @@ func (pc *PubkeyCache) AddValidator(index ValidatorIndex, pub BLSPubkey) (*Pubke
 		pc.rwLock.Unlock()
 		return pc.AddValidator(index, pub)
 	}
+	if _, known := pc.unsafeValidatorIndex(pub); known {
+		// Same, for the pubkey: it was appended (at another index) after the lookups above.
+		pc.rwLock.Unlock()
+		return pc.AddValidator(index, pub)
+	}
 	defer pc.rwLock.Unlock()
 	if expected := pc.trustedParentCount + ValidatorIndex(len(pc.idx2pub)); index != expected {
 		// index is unknown, but too far ahead of cache; in between indices are missing.
